@@ -58,6 +58,7 @@ class Worker(object):
         self.proc = None
         self.task = None
         self.deadline = None
+        self.lineage = []
         self.start()
 
     def start(self):
@@ -71,6 +72,9 @@ class Worker(object):
         self.buf = b''
         self.task = None
         self.deadline = None
+        # what this interpreter has executed so far, in order: part of the schedule when the code under test keeps
+        # state at process level
+        self.lineage = []
 
     def send(self, task, timeout):
         self.task = task
@@ -209,6 +213,11 @@ class Pool(object):
                     w.task = None
                     w.deadline = None
                     inflight -= 1
+                    if t['req'].get('op') == 'run':
+                        for sd, r_ in zip(t['req']['seeds'], msg['results']):
+                            w.lineage.append(list(sd))
+                            if r_.get('verdict') not in ('ok', 'known'):
+                                r_['_lineage'] = list(w.lineage)
                     finish(t, msg['results'], 'ok')
             for w in self.workers:
                 if w.task is not None and w.deadline is not None and now > w.deadline:
@@ -280,6 +289,88 @@ def shrink(pool, mod, scenario, ref, timeout, max_exec=400, wall=90.0):
                 improved = True
                 break
     return cur, cur_res, nexec
+
+
+def shrink_fresh(mod, scenario, ref, timeout, extra_path, max_rounds=10, width=8):
+    """Like shrink(), but every candidate runs in an interpreter that has executed nothing else (one short-lived pool
+    per round).  Used when the fast shrink in the long-lived pool produced something that does not replay: workers that
+    have seen other scenarios may carry process-level state of the code under test."""
+    cur, cur_res, nexec = scenario, ref, 0
+    for _ in range(max_rounds):
+        cands = []
+        for cand in mod.shrink_candidates(cur):
+            cands.append(cand)
+            if len(cands) >= width:
+                break
+        if not cands:
+            break
+        p = Pool(len(cands), hashseed=4242, extra_path=extra_path)
+        try:
+            out = p.run([{'op': 'exec', 'scenario': c} for c in cands], timeout)
+        finally:
+            p.close()
+        nexec += len(cands)
+        for (req, results, status), cand in zip(out, cands):
+            if status == 'ok' and results and same_failure(results[0], ref):
+                cur, cur_res = cand, results[0]
+                break
+        else:
+            break
+    return cur, cur_res, nexec
+
+
+def exec_history(scenarios, timeout, extra_path=None, hashseed=12345):
+    """the scenarios one after the other in one fresh interpreter; returns the list of results or None"""
+    fresh = Pool(1, hashseed=hashseed, extra_path=extra_path)
+    try:
+        out = fresh.run([{'op': 'exec_seq', 'scenarios': scenarios}], timeout)
+    finally:
+        fresh.close()
+    req, results, status = out[0]
+    if status != 'ok' or not results or len(results) != len(scenarios):
+        return None
+    return results
+
+
+def history_replay(mod, prop, v, extra_path, wall=240.0, max_len=4000):
+    """A violation that does not replay from its own scenario may depend on what the worker interpreter executed
+    before it.  Re-run that interpreter's whole history in a fresh one; if the violation comes back, minimise the
+    history (ddmin on the predecessors) and return (scenarios, result, executions)."""
+    lin = v.get('_lineage')
+    if not lin or len(lin) < 2 or len(lin) > max_len:
+        return None
+    t0 = time.monotonic()
+    scens = [mod.generate(sd, b) for b, sd in lin]
+    budget = mod.TIMEOUT * 4
+
+    def test(prefix):
+        rs = exec_history(prefix + [scens[-1]], budget, extra_path)
+        return rs[-1] if rs and same_failure(rs[-1], v) else None
+    nexec = 1
+    last = test(scens[:-1])
+    if last is None:
+        return None
+    cur = scens[:-1]
+    n = 2
+    while len(cur) >= 1 and time.monotonic() - t0 < wall:
+        chunk = max(1, len(cur) // n)
+        reduced = False
+        for i in range(0, len(cur), chunk):
+            cand = cur[:i] + cur[i + chunk:]
+            nexec += 1
+            r = test(cand)
+            if r is not None:
+                cur, last = cand, r
+                n = max(n - 1, 2)
+                reduced = True
+                break
+            if time.monotonic() - t0 > wall:
+                break
+        if not reduced:
+            if chunk == 1:
+                break
+            n = min(len(cur), n * 2)
+    return cur + [scens[-1]], last, nexec
 
 
 def tier_of(argv_tier):
@@ -392,10 +483,12 @@ def run_check(prop, tier, base_seed, nworkers=None, extra_path=None, hashseed=0,
         seen_inv = set()
         violations.sort(key=lambda r: (r.get('invariant') or '', jdump(r.get('scenario'))[:50]))
         nrep = 0
+        tried = {}
+        hist_tried = set()
         for v in violations:
-            if v['invariant'] in seen_inv or nrep >= 3:
+            if v['invariant'] in seen_inv or nrep >= 3 or tried.get(v['invariant'], 0) >= 4:
                 continue
-            seen_inv.add(v['invariant'])
+            tried[v['invariant']] = tried.get(v['invariant'], 0) + 1
             nrep += 1
             scen, res, nexec = shrink(pool, mod, v['scenario'], v, mod.TIMEOUT)
             # replay in a fresh interpreter
@@ -405,6 +498,45 @@ def run_check(prop, tier, base_seed, nworkers=None, extra_path=None, hashseed=0,
             finally:
                 fresh.close()
             if not same_failure(rep, v) or rep.get('digest') != res.get('digest'):
+                # the fast shrink ran in workers with a past; does the scenario as found replay on its own?
+                fresh = Pool(1, hashseed=12345, extra_path=extra_path)
+                try:
+                    rep0 = exec_scenario(fresh, v['scenario'], mod.TIMEOUT)
+                finally:
+                    fresh.close()
+                if same_failure(rep0, v):
+                    scen, res, nexec2 = shrink_fresh(mod, v['scenario'], rep0, mod.TIMEOUT, extra_path)
+                    nexec += nexec2
+                    fresh = Pool(1, hashseed=777, extra_path=extra_path)
+                    try:
+                        rep = exec_scenario(fresh, scen, mod.TIMEOUT)
+                    finally:
+                        fresh.close()
+            if not same_failure(rep, v) or rep.get('digest') != res.get('digest'):
+                hr = history_replay(mod, prop, v, extra_path) if v['invariant'] not in hist_tried else None
+                hist_tried.add(v['invariant'])
+                if hr is not None:
+                    hscens, hres, hexec = hr
+                    again = exec_history(hscens, mod.TIMEOUT * 4, extra_path, hashseed=777)
+                    if again and same_failure(again[-1], v) and again[-1].get('digest') == hres.get('digest'):
+                        seen_inv.add(v['invariant'])
+                        errors[:] = [e for e in errors if not (e.get('status') == 'non-reproducing' and e.get('invariant') == v['invariant'])]
+                        os.makedirs(os.path.join(VERIF_DIR, 'replays'), exist_ok=True)
+                        path = os.path.join(VERIF_DIR, 'replays', '%s-%s-%d.json' % (prop, v.get('seed'), nrep))
+                        with open(path, 'w') as f:
+                            json.dump({'property': prop, 'invariant': v['invariant'], 'detail': hres.get('detail'),
+                                       'step': hres.get('step'), 'digest': hres.get('digest'),
+                                       'history': hscens[:-1], 'scenario': hscens[-1],
+                                       'original_seed': v.get('seed'), 'shrink_executions': hexec,
+                                       'original_history_length': len(v.get('_lineage') or []),
+                                       'env': {'note': 'the violation needs the scenarios under "history" to run first in the same '
+                                                       'interpreter; replay with ./check %s --replay <this file>' % prop}},
+                                      f, indent=1, allow_nan=True)
+                        det = dict(hres.get('detail') or {})
+                        det['process_history'] = '%d earlier scenario(s) in the same interpreter are needed' % (len(hscens) - 1)
+                        reports.append((v['invariant'], path, det))
+                        continue
+                nrep -= 1      # does not count as a report; another scenario with the same invariant may reproduce
                 os.makedirs(os.path.join(VERIF_DIR, 'replays'), exist_ok=True)
                 with open(os.path.join(VERIF_DIR, 'replays', '%s-nonrepro-%s.json' % (prop, v.get('seed'))), 'w') as f:
                     json.dump({'property': prop, 'invariant': v['invariant'], 'scenario': scen, 'first': res.get('detail'),
@@ -413,6 +545,9 @@ def run_check(prop, tier, base_seed, nworkers=None, extra_path=None, hashseed=0,
                                'first': res.get('digest'), 'replay': rep.get('digest'),
                                'replay_verdict': rep.get('verdict'), 'replay_invariant': rep.get('invariant')})
                 continue
+            seen_inv.add(v['invariant'])
+            # a reproducing scenario for this invariant makes earlier non-reproducing attempts for it irrelevant
+            errors[:] = [e for e in errors if not (e.get('status') == 'non-reproducing' and e.get('invariant') == v['invariant'])]
             os.makedirs(os.path.join(VERIF_DIR, 'replays'), exist_ok=True)
             path = os.path.join(VERIF_DIR, 'replays', '%s-%s-%d.json' % (prop, v.get('seed'), nrep))
             with open(path, 'w') as f:
@@ -505,11 +640,15 @@ def replay(prop, path):
         doc = json.load(f)
     scen = doc['scenario']
     mod = load_prop(scen['prop'])
-    pool = Pool(1, hashseed=777)
-    try:
-        res = exec_scenario(pool, scen, mod.TIMEOUT)
-    finally:
-        pool.close()
+    if doc.get('history'):
+        rs = exec_history(list(doc['history']) + [scen], mod.TIMEOUT * 4, hashseed=777)
+        res = rs[-1] if rs else {'verdict': 'error', 'detail': {'harness_error': 'history replay did not complete'}}
+    else:
+        pool = Pool(1, hashseed=777)
+        try:
+            res = exec_scenario(pool, scen, mod.TIMEOUT)
+        finally:
+            pool.close()
     print('replay %s: verdict=%s invariant=%s digest=%s' % (path, res.get('verdict'), res.get('invariant'), res.get('digest')))
     print('  detail=%s' % jdump(res.get('detail'))[:2000])
     want = doc.get('invariant')
